@@ -24,6 +24,20 @@ const BOUNDARY_LINES: &[&str] = &[
     "PRINT F(-1)",
     "PRINT G(9223372036854775808)",
     "DIM H(99,100)",
+    "DIM H1(1,9223372036854775807)",
+    "DIM H2(9999,1844674407370956)",
+    "DIM H3(2,3,9223372036854775807)",
+    "DIM H4(9223372036854775807,1)",
+    "DIM H5(4294967295,4294967295,4294967295)",
+    "DIM H6(99,99,9223372036854775807)",
+    "PRINT D4(1,1,1,1)",
+    "D5(0,0,0,0,0) = 1",
+    "READ D6(0,0,0,1)",
+    "INPUT D7(1,1,1,1)",
+    "D8$(1,1,1,1) = \"x\"",
+    "P9(1) = \"x\" : DIM P9(20)",
+    "N9$(2) = 5 : N9$(1,2) = \"HI\"",
+    "C9(1,1,1,1,1) = \"X\"",
     "DIM I(9999)",
     "DIM J(10000)",
     "GOTO 18446744073709551615",
@@ -84,7 +98,21 @@ fn deep(rng: &mut Rng) -> String {
     }
 }
 
+fn boundary_dim(rng: &mut Rng) -> String {
+    let pool = ["0", "1", "9", "99", "100", "9999", "10000", "4294967295", "4294967296", "9223372036854775807", "1844674407370956", "1e300", "-1", "2.9"];
+    let n = rng.range(1, 4);
+    let subs: Vec<String> = (0..n).map(|_| rng.pick(&pool).to_string()).collect();
+    match rng.below(4) {
+        0 => format!("PRINT Z{}({})", n, subs.join(",")),
+        1 => format!("Z{}({}) = 1", n, subs.join(",")),
+        _ => format!("DIM Z{}{}({})", n, rng.pick(&["", "$"]), subs.join(",")),
+    }
+}
+
 fn random_text(rng: &mut Rng) -> String {
+    if rng.chance(1, 12) {
+        return boundary_dim(rng);
+    }
     match rng.below(10) {
         0..=2 => gen::token_soup(rng),
         3..=5 => gen::simple_statement(rng),
@@ -218,6 +246,53 @@ pub fn c01_cases(rng: &mut Rng, tier: &str) -> (Vec<Case>, bool) {
         let show = w.ops.iter().filter_map(|o| o.strip_prefix("start ").and_then(crate::imp::unhex)).map(|s| if s.len() > 40 { format!("{}…", s.chars().take(40).collect::<String>()) } else { s }).collect::<Vec<_>>().join(" | ");
         cases.push(case_from(w, vec!["err-then-idle".into(), "snap-caps".into()], kinds.join("+"), kinds.len() >= 3, show));
     }
+    // stale-reference scenarios: make a stored location point at a line, delete / replace that line, use the reference, render the error
+    let stale: &[&[&str]] = &[
+        &["10 DATA 1", "20 DATA ONE, TWO", "READ A", "20", "READ B"],
+        &["10 DATA 1", "20 DATA ONE, TWO", "30 READ A : STOP", "40 READ B", "RUN", "20", "CONT", "GOTO 40"],
+        &["10 DATA X", "READ A$", "10", "READ B"],
+        &["10 DATA 1, Y", "20 READ A", "RUN", "10 REM gone", "READ B", "READ C"],
+        &["10 GOSUB 100", "20 END", "100 STOP", "110 RETURN", "RUN", "10", "RETURN", "CONT"],
+        &["10 FOR I = 1 TO 3", "20 STOP", "30 NEXT I", "RUN", "10", "NEXT I", "CONT"],
+        &["10 DEF FNA(X) = X / 0", "20 STOP", "RUN", "10", "PRINT FNA(1)", "CONT"],
+        &["10 DEF FNA(X) = X / 0", "20 PRINT FNA(1)", "RUN", "10", "PRINT FNA(1)"],
+        &["10 INPUT A", "RUN", "10"],
+        &["10 PRINT 1 : STOP : PRINT 2", "RUN", "10 PRINT 3", "CONT", "10", "CONT", "RUN"],
+        &["10 X = 1/0", "RUN", "10", "LIST"],
+    ];
+    for (k, seq) in stale.iter().enumerate() {
+        for variant in 0..3 {
+            let mut w = Walk::new(variant == 1, variant == 2);
+            for text in seq.iter() {
+                let st = w.state();
+                if st == "AwaitingInput" {
+                    w.op("break");
+                } else if st == "Running" {
+                    let mut nr = 0;
+                    w.drive(&["1".to_string()], &mut nr, 30, true);
+                }
+                let r = w.start(text);
+                if r.starts_with("err") {
+                    w.op(&format!("caret {}", gen::hexs(text)));
+                    w.op("caret -");
+                }
+                w.op("take");
+                w.op("snap");
+                let mut nr = 0;
+                if w.state() == "Running" {
+                    w.drive(&["1".to_string()], &mut nr, 30, true);
+                    if let Some(i) = (0..w.ops.len()).rev().find(|&i| w.ops[i] == "cont") {
+                        if w.replies[i].starts_with("err") {
+                            w.op("caret -");
+                        }
+                    }
+                }
+            }
+            w.start("PRINT 7");
+            w.op("take");
+            cases.push(case_from(w, vec!["err-then-idle".into(), "snap-caps".into()], "stale-reference".into(), true, format!("#{}: {}", k, seq.join(" | "))));
+        }
+    }
     // every boundary line on its own, from a fresh interpreter and after a program
     for b in BOUNDARY_LINES {
         let mut w = Walk::new(true, true);
@@ -254,6 +329,16 @@ pub fn c16_cases(rng: &mut Rng, tier: &str) -> (Vec<Case>, bool) {
         "10 READ A$, B\n20 DATA 1, x",
         "10 INPUT A$\n20 INPUT B\n30 INPUT C(3)\n40 INPUT D$(2)",
         "10 FOR I = 1 TO 40\n20 GOSUB 100\n30 NEXT I\n40 END\n100 IF I < 39 THEN RETURN\n110 GOSUB 100",
+        // exactly 32 frames, then one more by each route
+        "5 DEF FNA(X) = X + 1\n10 D = D + 1\n20 IF D < 33 THEN GOSUB 10\n30 PRINT \"depth\"; D; FNA(1)",
+        "5 DEF FNA(X) = X + 1\n10 D = D + 1\n20 IF D < 32 THEN GOSUB 10\n30 PRINT \"depth\"; D; FNA(1)",
+        "10 D = D + 1\n20 IF D < 33 THEN GOSUB 10\n30 GOSUB 100\n40 END\n100 PRINT \"in\"\n110 RETURN",
+        "1 DEF FNA(X)=FNB(X)+1\n2 DEF FNB(X)=FNC(X)+1\n3 DEF FNC(X)=FND(X)+1\n4 DEF FND(X)=FNE(X)+1\n5 DEF FNE(X)=FNF(X)+1\n6 DEF FNF(X)=FNG(X)+1\n7 DEF FNG(X)=FNH(X)+1\n8 DEF FNH(X)=FNI(X)+1\n9 DEF FNI(X)=FNJ(X)+1\n10 DEF FNJ(X)=FNK(X)+1\n11 DEF FNK(X)=FNL(X)+1\n12 DEF FNL(X)=FNM(X)+1\n13 DEF FNM(X)=FNN(X)+1\n14 DEF FNN(X)=FNO(X)+1\n15 DEF FNO(X)=FNP(X)+1\n16 DEF FNP(X)=FNQ(X)+1\n17 DEF FNQ(X)=FNR(X)+1\n18 DEF FNR(X)=FNS(X)+1\n19 DEF FNS(X)=FNT(X)+1\n20 DEF FNT(X)=FNU(X)+1\n21 DEF FNU(X)=FNV(X)+1\n22 DEF FNV(X)=FNW(X)+1\n23 DEF FNW(X)=FNX(X)+1\n24 DEF FNX(X)=FNY(X)+1\n25 DEF FNY(X)=FNZ(X)+1\n26 DEF FNZ(X)=FNA1(X)+1\n27 DEF FNA1(X)=FNB1(X)+1\n28 DEF FNB1(X)=FNC1(X)+1\n29 DEF FNC1(X)=FND1(X)+1\n30 DEF FND1(X)=FNE1(X)+1\n31 DEF FNE1(X)=FNF1(X)+1\n32 DEF FNF1(X)=FNG1(X)+1\n33 DEF FNG1(X)=X\n40 PRINT FNA(0)\n50 PRINT FNB(0)",
+        "10 PRINT A(1,1,1,1)\n20 PRINT 2",
+        "10 B(0,0,0,0,0) = 1",
+        "10 READ T(0,0,0,1)\n20 DATA 5",
+        "10 INPUT U(1,1,1,1)",
+        "10 A(1) = \"X\"\n20 DIM A(20)\n30 B$(3) = 5\n40 B$(1,2) = \"HI\"",
     ];
     for t in targeted {
         for (w_, t_) in [(false, false), (true, true)] {
@@ -665,6 +750,7 @@ pub fn c09_cases(rng: &mut Rng, tier: &str) -> (Vec<Case>, bool) {
             }
             match st.as_str() {
                 "Running" => {
+                    w.op("snap");
                     w.op("cont");
                 }
                 "AwaitingInput" => {
@@ -679,7 +765,7 @@ pub fn c09_cases(rng: &mut Rng, tier: &str) -> (Vec<Case>, bool) {
         // the interpreter is idle again: the host keeps control
         w.start("PRINT 1");
         w.op("take");
-        let checks = vec![format!("calls-bounded {}", 1 + max_if), format!("reads-bounded 4 40 {}", max_len), "err-then-idle".to_string()];
+        let checks = vec![format!("calls-bounded {}", 1 + max_if), format!("reads-bounded 4 40 {}", max_len), "err-then-idle".to_string(), "traced-calls".to_string()];
         cases.push(case_from(w, checks, feature_tag(&p), true, p.text().replace('\n', " | ")));
     }
     (cases, false)
